@@ -265,6 +265,23 @@ impl BlockingManager {
     }
 }
 
+#[cfg(feature = "verif")]
+impl BlockingManager {
+    /// Read-only snapshot of the registry: (db, key, waiting connection ids in queue order),
+    /// sorted by (db, key), plus the number of queued wake-ups.
+    pub fn verif_snapshot(&self) -> (Vec<(usize, Vec<u8>, Vec<u64>)>, usize) {
+        let mut out = Vec::new();
+        for (db, reg) in self.registries.iter().enumerate() {
+            let reg = reg.try_read().expect("verif_snapshot: registry lock held");
+            for (key, clients) in reg.blocked_on_key.iter() {
+                out.push((db, key.clone(), clients.iter().map(|c| c.conn_id).collect()));
+            }
+        }
+        out.sort();
+        (out, self.wake_queue.len())
+    }
+}
+
 impl Default for BlockingRegistry {
     fn default() -> Self {
         Self::new()
